@@ -169,7 +169,32 @@ thread_local! {
     static LAST_PANIC: RefCell<Option<String>> = const { RefCell::new(None) };
 }
 
+/// A `log` sink that accepts every level and formats every record (into a scratch buffer), the way a
+/// process with logging switched on does (`RUST_LOG=trace`, or the Python binding, which installs
+/// `pyo3_log`): the arguments of the library's `log::warn!` calls are evaluated, so a panic while
+/// building a log message is a panic of the call that logs (S-C04-g).
+struct FormattingSink;
+
+impl log::Log for FormattingSink {
+    fn enabled(&self, _: &log::Metadata) -> bool {
+        true
+    }
+
+    fn log(&self, record: &log::Record) {
+        use std::fmt::Write;
+        let mut buf = String::new();
+        let _ = write!(buf, "{}", record.args());
+        std::hint::black_box(&buf);
+    }
+
+    fn flush(&self) {}
+}
+
 pub fn install_panic_hook() {
+    static SINK: FormattingSink = FormattingSink;
+    if log::set_logger(&SINK).is_ok() {
+        log::set_max_level(log::LevelFilter::Trace);
+    }
     std::panic::set_hook(Box::new(|info| {
         let msg = if let Some(s) = info.payload().downcast_ref::<&str>() {
             (*s).to_string()
